@@ -237,7 +237,7 @@ prop("C13",
 prop("C20",
      pure=["registry"],
      scripts=lambda tier, rnd: S.registry(rnd, 60 if tier == "quick" else 2000) + S.api_races() + S.life_cycle() + S.dial_params() +
-     [x for x in S.multi_listener() if "dual" in x["id"]],
+     [x for x in S.multi_listener() if "dual" in x["id"]] + (S.add_storm() if tier == "quick" else S.add_storm(60, 12)),
      mc=lambda tier: [mc_api(4)] if tier == "quick" else
      [mc_api(4), mc_api(5, ops=("addPeer", "deletePeer", "serve", "close"))],
      nontrivial=lambda s, r: sum(1 for e in syscheck.events_of(r) if e["e"] == "ret") >= 3,
